@@ -219,6 +219,35 @@ fn c17_q_lookup_paths_breakpad_sym() {
     std::mem::forget(r);
 }
 
+/// F: breakpad_symbols::code_info_breakpad_sym_lookup
+/// I: code file name: ASCII string of 0..=3 symbolic bytes
+/// B: names up to 3 bytes
+/// A: CodeId `to_string` replaced by a stub returning "I" (its upper-casing then runs on that constant); replace_or_add_extension replaced by a stub returning "f.sym"
+/// O: None exactly for an empty name or an unusable leaf (empty, ".", "..", drive-prefixed); otherwise the path is exactly `<leaf>/<ID>/<file>` with the first component the safe leaf
+#[kani::proof]
+#[kani::unwind(10)]
+#[kani::stub(<debugid::CodeId as std::string::ToString>::to_string, id_string)]
+#[kani::stub(breakpad_symbols::replace_or_add_extension, ext_stub)]
+fn c17_q_lookup_paths_code_info() {
+    let (c, cl) = any_ascii::<3>();
+    let code = unsafe { std::str::from_utf8_unchecked(&c[..cl]) };
+    let m = M { code, debug: "d" };
+    let r = breakpad_symbols::code_info_breakpad_sym_lookup(&m);
+    let leaf = leaf_of(&c[..cl]);
+    match &r {
+        Some(p) => {
+            assert!(cl > 0 && is_safe(leaf));
+            let id = CodeId::nil().to_string().to_uppercase();
+            let file = hook::replace_or_add_extension(unsafe { std::str::from_utf8_unchecked(leaf) }, "dll", "sym");
+            assert!(is_cat(p.as_bytes(), leaf, id.as_bytes(), file.as_bytes()));
+            std::mem::forget(id);
+            std::mem::forget(file);
+        }
+        None => assert!(cl == 0 || !is_safe(leaf)),
+    }
+    std::mem::forget(r);
+}
+
 /// Reachability witness.
 #[kani::proof]
 #[kani::unwind(8)]
